@@ -18,14 +18,29 @@ let oracle_c02 (line : string) : string =
         let (nl', nc', before) = parse_grid (field r "B") in
         let log = parse_xlog (field r "X") in
         let damage = List.filter_map (fun (id, rc) -> if iz id = 0 then Some rc else None) log in
+        let rec tree_rects (Node (i, ch)) = (iz i.w_id, i.w_rect) :: List.concat_map tree_rects ch in
         if nl <> nl' || nc <> nc' then bad := Some (Printf.sprintf "record %d: grid sizes" k)
+        else if has_tree_change cs then begin
+          (* the tree the cells were drawn under is not the tree reported after the flush; what can be
+             demanded: a window that moved itself (and nothing else changed) is protected where it is now *)
+          let u = parse_tree (field r "U") in
+          let ru = tree_rects u and rt = tree_rects t in
+          let moved = List.filter (fun (id, rc) -> match List.assoc_opt id ru with Some rc' -> rc' <> rc | None -> false) rt in
+          let same_ids = List.map fst ru = List.map fst rt in
+          match moved with
+          | [(w, _)] when same_ids && List.length damage = 1 && List.exists (fun (id, _) -> iz id = w) log
+                          && List.for_all (fun (id, acts) -> List.for_all (function RGeom (x, _, _) -> iz x = id | RA (RExpose _) -> true | _ -> false) acts) cs.racts2 ->
+            if not (c02_selfmove_checkb u t (zi w) (zi nl) (zi nc) before after) then
+              bad := Some (Printf.sprintf "record %d: a lower layer drew into cells of window %d, which moved there from inside its own expose handler (the mask must be where the window is now)" k w)
+          | _ -> ()
+        end
         else if not (c02_cells_checkb !app t (zi nl) (zi nc) before after damage) then
           bad := Some (Printf.sprintf "record %d: a cell changed that the drawing window does not own" k)
         else if not (c02_exact_checkb !app (progs_fn cs) t (zi nl) (zi nc) before after log) then
           bad := Some (Printf.sprintf "record %d: a cell does not show what its owner's program alone leaves there" k)
-        else if not (has_restack cs) && not (c02_within_pending_checkb (zi 0) (parse_rects (field r "P")) log) then
+        else if not (has_restack cs || has_nested_flush cs) && not (c02_within_pending_checkb (zi 0) (parse_rects (field r "P")) log) then
           bad := Some (Printf.sprintf "record %d: the root was handed a rectangle that was not damage" k)
-        else if not (c02_rects_checkb t log) then
+        else if not (if has_nested_flush cs then c02_rects_in_checkb t log else c02_rects_checkb t log) then
           bad := Some (Printf.sprintf "record %d: a handler was handed a rectangle outside its window or overlapping another" k)
       end) recs;
   match !bad with None -> "OK" | Some m -> "BAD " ^ m
